@@ -1,9 +1,11 @@
-import NmlVerif.Model.Morph
+import NmlVerif.Model.MorphCell
 import NmlVerif.DrvCommon
 open Lean NmlVerif.Morph Drv
 
 /-! Line protocol for C13. Input: one morphology + queries per line; rationals travel as "num/den" strings.
-    Output: the result of every modelled method (`null` = the method raises). -/
+    Output: the result of every modelled method (`null` = the method raises).
+    A line with `"ops"` is a CALL HISTORY on one cell object (`Model/MorphCell.lean`): calls and edits of the segment
+    list; the output lists, per operation, the result and the two caches of the object afterwards. -/
 
 def parseRat (s : String) : Rat :=
   match s.splitOn "/" with
@@ -32,12 +34,53 @@ def optJ {α : Type} (f : α → Json) : Option α → Json | none => Json.null 
 def listJ {α : Type} (f : α → Json) (l : List α) : Json := Json.arr (l.map f).toArray
 def pairJ (e : Nat × Rat) : Json := Json.arr #[nJ e.1, rJ e.2]
 
+def edgeJ (e : Edge) : Json := Json.arr #[nJ e.src, nJ e.dst, rJ e.w]
+def adjJ (a : Adj) : Json := listJ (fun e => Json.arr #[nJ e.1, listJ nJ e.2]) a
+def graphJ (g : Graph) : Json := Json.mkObj [("nodes", listJ nJ g.nodes), ("edges", listJ edgeJ g.edges)]
+
+def valJ : Val → Json
+  | .adj a => adjJ a
+  | .graph g => graphJ g
+  | .num x => rJ x
+  | .dists l => listJ pairJ l
+  | .idl l => listJ nJ l
+  | .nat n => nJ n
+
+def natOr (j : Json) (k : String) (dflt : Nat) : Nat :=
+  match getObj j k with
+  | .null => dflt
+  | v => (v.getNat?.toOption).getD dflt
+
+/-- one operation of a history; a missing `src` is the Python default argument (segment id 0) -/
+def parseOp (j : Json) : Option Op :=
+  match getStr j "op" with
+  | "adj" => some (.call .adjacency)
+  | "graph" => some (.call .graph)
+  | "dist" => some (.call (.distance (getNat j "dst") (natOr j "src" 0)))
+  | "alld" => some (.call (.allDistances (natOr j "src" 0)))
+  | "atd" => some (.call (.atDistance (ratOf (getObj j "d")) (natOr j "src" 0)))
+  | "branch" => some (.call .branching)
+  | "root" => some (.call .root)
+  | "tips" => some (.call .tips)
+  | "edit" => some (.edit ((getArr j "segs").toList.map parseSeg))
+  | _ => none
+
+def histJ (j : Json) : Json :=
+  let m : Morph := (getArr j "segs").toList.map parseSeg
+  match mapOpt parseOp (getArr j "ops").toList with
+  | none => Json.mkObj [("res", "bad-op")]
+  | some ops =>
+    let out := runOps (fun m i => exactLength m i) (CellS.fresh m) ops
+    Json.mkObj [("res", "ok"), ("steps", listJ (fun (r : CellS × Option Val) =>
+      Json.mkObj [("r", optJ valJ r.2), ("adj", optJ adjJ r.1.adjacency_list), ("g", optJ graphJ r.1.cell_graph)]) out)]
+
 def handle (j : Json) : Json :=
+  if (getObj j "ops") != Json.null then histJ j else
   let m : Morph := (getArr j "segs").toList.map parseSeg
   let fuel := m.length + 1
   if !wfForestB m then Json.mkObj [("res", "not-wf")] else
-  let lenTab := m.map (fun s => (s.id, axisLength m fuel s.id))
-  if lenTab.any (fun e => e.2.isNone) then Json.mkObj [("res", "not-axis")] else
+  let lenTab := m.map (fun s => (s.id, exactLength m s.id))
+  if lenTab.any (fun e => e.2.isNone) then Json.mkObj [("res", "not-exact")] else
   let len : Nat → Rat := fun i => ((lenTab.find? (fun e => e.1 == i)).bind (·.2)).getD 0
   let g := getGraph m len
   let gOld := getGraphOld m len
